@@ -945,6 +945,10 @@ class C21(core.Check):
                 chain = '%r <- %r' % (e, e.__cause__ or e.__context__)
                 out.violate('C21.5' if 'export' in chain else 'C21.6',
                             'the interpreter reported an internal error during the history: %s' % chain, run.opi)
+            except (HarnessError, MemoryError):
+                raise
+            except Exception as e:
+                out.violate('C21.1', hist.unexpected(e, (case['ops'][run.opi:run.opi + 1] or [None])[0]), run.opi)
             finally:
                 for attempt in range(3):
                     try:
